@@ -55,8 +55,8 @@ pub ghost enum AVal {
     Other { tag: u8, data: Seq<u8> },
     /// 1setOf: two or more values (a one-element set is identified with its element)
     Set { elems: Seq<AVal> },
-    /// collection: member name -> value
-    Coll { members: Seq<(Seq<char>, AVal)> },
+    /// collection: members (name, value) in the order they are held / written
+    Coll { members: Seq<(String, AVal)> },
 }
 
 pub open spec fn is_text_tag(t: u8) -> bool {
@@ -99,13 +99,21 @@ pub open spec fn aval_scalar(v: IppValue) -> AVal {
     }
 }
 
-/// Abstraction of any concrete value (sets element-wise; collections: see `aval_members`).
+/// Abstraction of any concrete value: sets element-wise, collections as the member list in the
+/// map's iteration order.
 pub open spec fn aval(v: IppValue) -> AVal
     decreases v
 {
     match v {
-        IppValue::Array(list) => AVal::Set { elems: Seq::new(list@.len(), |i: int| if 0 <= i < list@.len() { aval(list@[i]) } else { AVal::NoValue }) },
-        IppValue::Collection(m) => arbitrary(),
+        IppValue::Array(list) => AVal::Set {
+            elems: Seq::new(list@.len(), |i: int| if 0 <= i < list@.len() { aval(list@[i]) } else { AVal::NoValue }),
+        },
+        IppValue::Collection(m) => AVal::Coll {
+            members: Seq::new(bt_order(m@.dom()).len(), |i: int| {
+                let k = bt_order(m@.dom())[i];
+                (k, if m@.contains_key(k) { aval(m@[k]) } else { AVal::NoValue })
+            }),
+        },
         _ => aval_scalar(v),
     }
 }
@@ -165,6 +173,105 @@ pub open spec fn spec_val_dec(tag: u8, b: Seq<u8>) -> Option<AVal> {
         Some(AVal::NoValue)
     } else {
         Some(AVal::Other { tag, data: b })
+    }
+}
+
+
+// ------------------------------------------------------------------ encoder (RFC 8010 §3.1, §3.9)
+
+/// Value field of a scalar value (the octets after its value-length).
+pub open spec fn scalar_body(a: AVal) -> Seq<u8> {
+    match a {
+        AVal::Int { v, .. } => enc32(v as u32),
+        AVal::Bool { b } => s1(if b { 1u8 } else { 0u8 }),
+        AVal::Text { s, .. } => utf8(s),
+        AVal::Lang { lang, s, .. } => enc16(utf8(lang).len() as u16) + utf8(lang) + enc16(utf8(s).len() as u16) + utf8(s),
+        AVal::Range { min, max } => enc32(min as u32) + enc32(max as u32),
+        AVal::Date { year, month, day, hour, minutes, seconds, deci, dir, uh, um } =>
+            enc16(year) + s1(month) + s1(day) + s1(hour) + s1(minutes) + s1(seconds) + s1(deci) + s1(dir as u8) + s1(uh) + s1(um),
+        AVal::Res { cross, feed, units } => enc32(cross as u32) + enc32(feed as u32) + s1(units as u8),
+        AVal::NoValue => Seq::<u8>::empty(),
+        AVal::Other { data, .. } => data,
+        _ => Seq::<u8>::empty(),
+    }
+}
+
+/// "value-length value" of `a`; for a set this continues with one additional-value
+/// ("value-tag name-length=0 value-length value") per further element, each with ITS OWN tag
+/// (§3.1.3 / §3.1.5); for a collection: begCollection's empty value, then per member a
+/// memberAttrName value followed by the member value(s), then the endCollection value (§3.1.6).
+pub open spec fn spec_val_enc(a: AVal) -> Seq<u8>
+    decreases a
+{
+    match a {
+        AVal::Set { elems } => set_enc(elems, elems.len()),
+        AVal::Coll { members } => enc16(0) + members_enc(members, members.len())
+            + s1(T_ENDCOLLECTION) + enc16(0) + enc16(0),
+        _ => enc16(scalar_body(a).len() as u16) + scalar_body(a),
+    }
+}
+
+/// encoding of the first `n` elements of a set
+pub open spec fn set_enc(elems: Seq<AVal>, n: nat) -> Seq<u8>
+    decreases elems, n
+{
+    if n == 0 || n > elems.len() {
+        Seq::<u8>::empty()
+    } else if n == 1 {
+        spec_val_enc(elems[0])
+    } else {
+        set_enc(elems, (n - 1) as nat) + s1(spec_tag(elems[n - 1])) + enc16(0) + spec_val_enc(elems[n - 1])
+    }
+}
+
+/// encoder loop state after `n` elements: their encoding plus, when another element follows, the
+/// additional-value prefix (its tag and the empty name) of that next element
+pub open spec fn set_enc_sep(elems: Seq<AVal>, n: nat) -> Seq<u8> {
+    if 0 < n < elems.len() {
+        set_enc(elems, n) + s1(spec_tag(elems[n as int])) + enc16(0)
+    } else {
+        set_enc(elems, n)
+    }
+}
+
+/// no exec-arithmetic overflow while encoding (usize sums of string lengths)
+pub open spec fn size_ok(a: AVal) -> bool
+    decreases a
+{
+    match a {
+        AVal::Lang { lang, s, .. } => utf8(lang).len() + utf8(s).len() + 4 <= usize::MAX,
+        AVal::Set { elems } => forall|i: int| 0 <= i < elems.len() ==> size_ok(#[trigger] elems[i]),
+        AVal::Coll { members } => forall|i: int| 0 <= i < members.len() ==> size_ok((#[trigger] members[i]).1),
+        _ => true,
+    }
+}
+
+/// encoding of the first `n` members of a collection: per member, its name as a nameless value of
+/// syntax memberAttrName, then its value (with additional values if it is a set) as nameless value(s)
+pub open spec fn members_enc(members: Seq<(String, AVal)>, n: nat) -> Seq<u8>
+    decreases members, n
+{
+    if n == 0 || n > members.len() {
+        Seq::<u8>::empty()
+    } else {
+        members_enc(members, (n - 1) as nat)
+            + s1(T_MEMBERNAME) + enc16(0) + (enc16(utf8(members[n - 1].0@).len() as u16) + utf8(members[n - 1].0@))
+            + s1(spec_tag(members[n - 1].1)) + enc16(0) + spec_val_enc(members[n - 1].1)
+    }
+}
+
+/// every string and raw body fits its 16-bit length field (the domain of C01 / C03)
+pub open spec fn wf16(a: AVal) -> bool
+    decreases a
+{
+    match a {
+        AVal::Text { s, .. } => utf8(s).len() <= 0xffff,
+        AVal::Lang { lang, s, .. } => utf8(lang).len() + utf8(s).len() + 4 <= 0xffff,
+        AVal::Other { data, .. } => data.len() <= 0xffff,
+        AVal::Set { elems } => forall|i: int| 0 <= i < elems.len() ==> wf16(#[trigger] elems[i]),
+        AVal::Coll { members } => forall|i: int| 0 <= i < members.len() ==>
+            utf8((#[trigger] members[i]).0@).len() <= 0xffff && wf16(members[i].1),
+        _ => true,
     }
 }
 
